@@ -152,7 +152,13 @@ def gen_offload_restore_script(rng):
     for i in range(n):
         L.append('W %08x 5 - 5 %d' % (i + 1, i + 1))
     L += ['close', 'cfgnext init=lazy', 'open', 'offload 18446744073709551615 %d' % rng.choice([0, 0, 1])]
-    L.append('cancel %d restore_active' % rng.choice([1, 2, 2, 3, 4]))
+    # the dropped operation reads the index of a closed blob into memory: a restore of the active blob, or a delete
+    # whose marker goes into that closed blob
+    k = rng.choice([1, 2, 2, 3, 4, 5, 6, 8, 12])
+    L.append(rng.choice(['cancel %d restore_active' % k, 'cancel %d restore_active' % k, 'cancel %d D 00000005 50 - 1' % k]))
+    if rng.random() < 0.6:
+        # the filter buffers are dropped again (they are re-read from the place in the index file the index remembers)
+        L += ['offload 18446744073709551615 %d' % rng.choice([0, 1]), 'R 00000003', 'R 00000999']
     L += ['restore_active', 'W 00000100 6 - 5 100', 'R 00000003', 'R 00000100', 'close', 'open', 'R 00000003', 'R 00000100', 'counts', 'close']
     return '\n'.join(L) + '\n'
 
@@ -196,8 +202,12 @@ def oracle(lines, io, spec=None):
         return fails
     if 'nop offload-restore' in lines:
         # finding F33 (repaired): only "later operations succeed and the data is served" is judged here
+        if len(io) < len(lines):
+            fails.append('line %d `%s` after the cancelled operation: the session ended there (%s)' % (len(io), lines[len(io)], io[-1][:160] if io else '-'))
         for i in range(ci + 1, min(len(lines), len(io))):
             l, o = lines[i], io[i]
+            if l == 'R 00000999' and o != 'R NotFound':
+                fails.append('line %d `%s` after the cancelled operation: %s' % (i, l, o))
             if l.startswith('W ') and o != 'W ok':
                 fails.append('line %d `%s` after the cancelled restore: %s' % (i, l, o))
             if l in ('close', 'open') and o != l + ' ok':
